@@ -23,4 +23,5 @@ FLOORS = {
     "C11": {"entries": 25, "obligations": 200},
     "C13": {"entries": 2, "obligations": 60},
     "C19": {"entries": 15, "obligations": 80},
+    "C20": {"entries": 8, "obligations": 400},
 }
